@@ -140,11 +140,15 @@ def rule_P(ck, lib):
     if not ck.judge(len(pnames) == 2, "C02-P", "compound:params", "parameters (root, header): %s" % pnames, "unexpected parameters %s" % pnames):
         return
     ROOTP, H = ("param", pnames[0]), ("param", pnames[1])
+    INP = [("param", ctx.parser_input(lib, COMPOUND))]
 
     def colon_state(x):
         """was the optional leading separator present on this path? True/False/None(not on path / loop body)"""
         for c in x.conds:
             if c[0] == "is" and c[2] == SOME and is_colon_flag(c[1]):
+                return c[3]
+            # the separator tried directly: header_separator(input) is Ok / is not Ok
+            if c[0] == "is" and c[2] == OK and c[1][0] == "call" and c[1][1] == HSEP and c[1][2] and c[1][2][-1] == INP[0]:
                 return c[3]
         return None
 
@@ -195,6 +199,8 @@ def rule_P(ck, lib):
                 col = None
                 for c in st.conds:
                     if c[0] == "is" and c[2] == SOME and is_colon_flag(c[1]):
+                        col = c[3]
+                    if c[0] == "is" and c[2] == OK and c[1][0] == "call" and c[1][1] == HSEP and c[1][2] and c[1][2][-1] == INP[0]:
                         col = c[3]
                 start = "Root" if col else "H"
                 okk = pn == ("child", start) and ph == start
